@@ -3,6 +3,7 @@
 package mc
 
 import (
+	"fmt"
 	"os"
 	"sort"
 	"strconv"
@@ -215,6 +216,14 @@ func wConfig(prop, tier string) *Config {
 			"mc_claim_lp1", "commit_eden_lp1", "vest_eden_lp1", "cancel_vest_lp1", "claim_vesting_lp1", "vest_now_lp1", "stake_elys_lp1", "unstake_elys_lp1", "estaking_withdraw_lp1", "send_elys_to_burn_addr",
 			"fee_tx_uatom", "fee_tx_uelys", "price_atom_2", "price_atom_1", "price_atom_12", "gap_1h", "gap_1d", "gap_30d", "nofeed", "empty", "vest_liquid_uatom_lp1", "cfg_vestinfo_uatom", "estaking_withdraw_reward_lp1", "estaking_withdraw_elys_rewards_lp1", "stake_eden_lp1", "unstake_eden_lp1", "join_p2_single_usdc_t1_inflated_quote", "join_p2_all_t1_quote_plus1"}
 		cfg.Oracles = []*Oracle{OracleC15Supply(), OracleC15()}
+		// cleanup paths of the commitment record: from the root where t1's record holds nothing but claimed Eden
+		defer func() {
+			d := 2
+			if thorough {
+				d = 3
+			}
+			cfg.Phases = append(cfg.Phases, Phase{Name: fmt.Sprintf("record-cleanup-depth%d", d), Roots: []string{"R15"}, Ops: []string{"vest_now_all_t1", "vest_now_all_lp1", "mc_claim_t1", "join_p1_all_t1", "exit_p1_all_t1", "gap_1d", "empty"}, Depth: d, Dev: 2})
+		}()
 		if thorough {
 			cfg.Phases = []Phase{{Name: "full-depth3", Roots: []string{"R0", "R1", "R2", "R5", "R10"}, Ops: ops, Depth: 3, Dev: 3}}
 		} else {
